@@ -4,9 +4,14 @@
 (* built event.                                                            *)
 (*                                                                         *)
 (* Filter trees   leaf [op, p, id] | none | opt | and | or                 *)
-(*                | ref | box | arc | erased      (records with field op)  *)
+(*                | ref | box | arc | erased | assert (AssertInternal)     *)
 (* Emitter trees  leaf [op, id] | none | opt | and | wrap [op, f, t]       *)
-(*                | ref | box | arc | erased                               *)
+(*                | ref | box | arc | erased | assert                      *)
+(*                | wrapfn [op, kind, t]: wrapping::from_fn that drops,    *)
+(*                  passes, or passes with a=77 put in front               *)
+(*                | rt [op, f, amb, clock, id, t]: a nested Runtime used   *)
+(*                  as a destination; it runs the pipeline again with its  *)
+(*                  own filter, ambient properties and clock               *)
 (* A configuration is [own, extent, ambient, clock, rtf, csf, em, entry]:  *)
 (* the event's own properties (a sequence of [k, v], duplicates allowed),  *)
 (* its extent, the ambient properties, the clock (None or a reading), the  *)
@@ -38,13 +43,14 @@ VARIABLES
     amb,     \* the snapshot of the ambient properties
     ext,     \* the resolved extent
     log,     \* what was consulted / reached, in order:
-             \*   [t |-> "ctxt"], [t |-> "clock"], [t |-> "f", id] filter leaf, [t |-> "e", id, ev] delivery
+             \*   [t |-> "ctxt", id], [t |-> "clock", id] (id 0: the runtime emitted through, else a nested one),
+             \*   [t |-> "f", id] filter leaf, [t |-> "e", id, ev] delivery
     work     \* dispatch: stack of [t |-> emitter subtree, ev |-> event]
 
 vars == <<cfg, pc, amb, ext, log, work>>
 
-FWrap == {"opt", "ref", "box", "arc", "erased"}
-Strippable == {"ref", "box", "arc", "erased"}
+FWrap == {"opt", "ref", "box", "arc", "erased", "assert"}
+Strippable == {"ref", "box", "arc", "erased", "assert"}
 Pipeline == {"rt", "rt_as_emitter", "core", "macro", "macro_evt"}
 
 NoExtent == [kind |-> "none", a |-> 0, b |-> 0]
@@ -72,6 +78,7 @@ PredHolds(p, ev) ==
       [] p = "ext_point" -> ev.ext.kind = "point"
       [] p = "ext_range" -> ev.ext.kind = "range"
       [] p = "ext_clock" -> ev.ext = Point(ClockT)
+      [] p = "ext_9" -> ev.ext = Point(9)                     \* the reading of a nested runtime's clock
 
 OwnEvent(c) == [props |-> c.own, ext |-> c.extent]
 
@@ -80,6 +87,16 @@ Built(c) ==
     [props |-> c.own \o c.ambient,
      ext |-> IF c.extent.kind # "none" THEN c.extent
              ELSE IF c.clock # None THEN Point(c.clock) ELSE NoExtent]
+
+\* what a rewriting wrapping passes on: a = 77 in front (so it wins)
+Prepend(ev) == [props |-> <<[k |-> "a", v |-> 77]>> \o ev.props, ext |-> ev.ext]
+
+\* the event as the destinations of a nested runtime must see it: its ambient properties
+\* appended, its clock's reading when there is still no extent
+Rebuilt(n, ev) ==
+    [props |-> ev.props \o n.amb,
+     ext |-> IF ev.ext.kind # "none" THEN ev.ext
+             ELSE IF n.clock # None THEN Point(n.clock) ELSE NoExtent]
 
 \* the effective filter: the call-site filter when one is given, otherwise the runtime's
 Eff(c) == IF c.csf.op # "absent" THEN c.csf ELSE c.rtf
@@ -105,14 +122,19 @@ InvA(f, ev) ==
       [] f.op = "and" -> InvA(f.l, ev) \o (IF Truth(f.l, ev) THEN InvA(f.r, ev) ELSE <<>>)
       [] f.op = "or" -> InvA(f.l, ev) \o (IF Truth(f.l, ev) THEN <<>> ELSE InvA(f.r, ev))
 
-\* destinations behind present, passing branches
+\* destinations behind present, passing branches, with the event each must receive
 RECURSIVE Reach(_, _)
 Reach(e, ev) ==
-    CASE e.op = "leaf" -> {e.id}
+    CASE e.op = "leaf" -> {[id |-> e.id, ev |-> ev]}
       [] e.op = "none" -> {}
       [] e.op \in FWrap -> Reach(e.t, ev)
       [] e.op = "and" -> Reach(e.l, ev) \cup Reach(e.r, ev)
       [] e.op = "wrap" -> IF Truth(e.f, ev) THEN Reach(e.t, ev) ELSE {}
+      [] e.op = "wrapfn" -> (CASE e.kind = "drop" -> {}
+                               [] e.kind = "pass" -> Reach(e.t, ev)
+                               [] e.kind = "prepend" -> Reach(e.t, Prepend(ev)))
+      \* the statement again, for the nested runtime and the event it is given
+      [] e.op = "rt" -> IF Truth(e.f, Rebuilt(e, ev)) THEN Reach(e.t, Rebuilt(e, ev)) ELSE {}
 
 RECURSIVE LeafIds(_)
 LeafIds(e) ==
@@ -120,7 +142,7 @@ LeafIds(e) ==
       [] e.op = "none" -> {}
       [] e.op \in FWrap -> LeafIds(e.t)
       [] e.op = "and" -> LeafIds(e.l) \cup LeafIds(e.r)
-      [] e.op = "wrap" -> LeafIds(e.t)
+      [] e.op \in {"wrap", "wrapfn", "rt"} -> LeafIds(e.t)
 
 \* filter leaves consulted by the wrappings on the way to the destinations (a set:
 \* the order between branches is not specified)
@@ -132,6 +154,12 @@ WrapInv(e, ev) ==
       [] e.op = "wrap" ->
             {InvA(e.f, ev)[i] : i \in 1..Len(InvA(e.f, ev))}
             \cup (IF Truth(e.f, ev) THEN WrapInv(e.t, ev) ELSE {})
+      [] e.op = "wrapfn" -> (CASE e.kind = "drop" -> {}
+                               [] e.kind = "pass" -> WrapInv(e.t, ev)
+                               [] e.kind = "prepend" -> WrapInv(e.t, Prepend(ev)))
+      [] e.op = "rt" ->
+            {InvA(e.f, Rebuilt(e, ev))[i] : i \in 1..Len(InvA(e.f, Rebuilt(e, ev)))}
+            \cup (IF Truth(e.f, Rebuilt(e, ev)) THEN WrapInv(e.t, Rebuilt(e, ev)) ELSE {})
 
 \* removing the reference / box / arc / erasure layers
 RECURSIVE Strip(_)
@@ -140,6 +168,9 @@ Strip(t) ==
       [] t.op = "opt" -> [op |-> "opt", t |-> Strip(t.t)]
       [] t.op \in {"and", "or"} -> [op |-> t.op, l |-> Strip(t.l), r |-> Strip(t.r)]
       [] t.op = "wrap" -> [op |-> "wrap", f |-> Strip(t.f), t |-> Strip(t.t)]
+      [] t.op = "wrapfn" -> [op |-> "wrapfn", kind |-> t.kind, t |-> Strip(t.t)]
+      [] t.op = "rt" -> [op |-> "rt", f |-> Strip(t.f), amb |-> t.amb, clock |-> t.clock, id |-> t.id,
+                         t |-> Strip(t.t)]
       [] OTHER -> t
 
 -----------------------------------------------------------------------------
@@ -188,7 +219,7 @@ Direct ==
 SnapshotCtxt ==
     /\ pc = "start" /\ cfg.entry \in Pipeline
     /\ amb' = cfg.ambient
-    /\ log' = Append(log, [t |-> "ctxt"])
+    /\ log' = Append(log, [t |-> "ctxt", id |-> 0])
     /\ pc' = "extent"
     /\ UNCHANGED <<cfg, ext, work>>
 
@@ -198,7 +229,7 @@ ResolveExtent ==
     /\ IF cfg.extent.kind # "none"
        THEN ext' = cfg.extent /\ log' = log
        ELSE /\ ext' = IF cfg.clock # None THEN Point(cfg.clock) ELSE NoExtent
-            /\ log' = Append(log, [t |-> "clock"])
+            /\ log' = Append(log, [t |-> "clock", id |-> 0])
     /\ pc' = "filter"
     /\ UNCHANGED <<cfg, amb, work>>
 
@@ -231,6 +262,18 @@ Dispatch ==
                  LET r == Eval(e.f, top.ev)
                  IN /\ log' = log \o FLog(r.inv)
                     /\ work' = IF r.res THEN <<[t |-> e.t, ev |-> top.ev]>> \o rest ELSE rest
+            [] e.op = "wrapfn" ->                                        \* wrapping::from_fn
+                 /\ log' = log
+                 /\ work' = (CASE e.kind = "drop" -> rest
+                               [] e.kind = "pass" -> <<[t |-> e.t, ev |-> top.ev]>> \o rest
+                               [] e.kind = "prepend" -> <<[t |-> e.t, ev |-> Prepend(top.ev)]>> \o rest)
+            [] e.op = "rt" ->                   \* Emitter for Runtime: self.emit(evt), i.e. emit() again
+                 LET ev2 == Rebuilt(e, top.ev)
+                     r == Eval(e.f, ev2)
+                 IN /\ log' = log \o <<[t |-> "ctxt", id |-> e.id]>>
+                               \o (IF top.ev.ext.kind = "none" THEN <<[t |-> "clock", id |-> e.id]>> ELSE <<>>)
+                               \o FLog(r.inv)
+                    /\ work' = IF r.res THEN <<[t |-> e.t, ev |-> ev2]>> \o rest ELSE rest
     /\ pc' = IF work' = <<>> THEN "done" ELSE "dispatch"
     /\ UNCHANGED <<cfg, amb, ext>>
 
@@ -254,8 +297,8 @@ ExactlyOnce ==
     (pc = "done" /\ cfg.entry \in Pipeline) =>
         LET ev == Built(cfg)
             want == IF Truth(Eff(cfg), ev) THEN Reach(cfg.em, ev) ELSE {}
-        IN /\ \A i \in LeafIds(cfg.em) : CountFor(i) = (IF i \in want THEN 1 ELSE 0)
-           /\ \A n \in 1..Len(Deliveries) : Deliveries[n].ev = ev
+        IN /\ \A i \in LeafIds(cfg.em) : CountFor(i) = (IF \E r \in want : r.id = i THEN 1 ELSE 0)
+           /\ \A n \in 1..Len(Deliveries) : [id |-> Deliveries[n].id, ev |-> Deliveries[n].ev] \in want
 
 \* borrowed / boxed / shared / erased layers change nothing
 WrappersTransparent ==
@@ -265,14 +308,16 @@ WrappersTransparent ==
            /\ Reach(Strip(cfg.em), ev) = Reach(cfg.em, ev)
            /\ WrapInv(Strip(cfg.em), ev) = WrapInv(cfg.em, ev)
 
-\* emitting straight to a destination bypasses filter, clock and ambient context
+\* emitting straight to a destination bypasses filter, clock and ambient context (of the
+\* runtime; a nested runtime that is itself the destination applies its own)
 DirectBypass ==
     (pc = "done" /\ cfg.entry = "direct") =>
-        /\ \A n \in 1..Len(log) : log[n].t \in {"e", "f"}
+        /\ \A n \in 1..Len(log) : log[n].t \in {"ctxt", "clock"} => log[n].id # 0
         /\ \A n \in 1..Len(Consulted) : ~IsEffLeaf(Consulted[n].id)
         /\ \A i \in LeafIds(cfg.em) :
-              CountFor(i) = (IF i \in Reach(cfg.em, OwnEvent(cfg)) THEN 1 ELSE 0)
-        /\ \A n \in 1..Len(Deliveries) : Deliveries[n].ev = OwnEvent(cfg)
+              CountFor(i) = (IF \E r \in Reach(cfg.em, OwnEvent(cfg)) : r.id = i THEN 1 ELSE 0)
+        /\ \A n \in 1..Len(Deliveries) :
+              [id |-> Deliveries[n].id, ev |-> Deliveries[n].ev] \in Reach(cfg.em, OwnEvent(cfg))
 
 \* the effective filter consults exactly the leaves the logical definition names, in
 \* that order; the other filter is never consulted; wrappings consult theirs
